@@ -29,7 +29,7 @@ def run(c):
     if c.quick:
         hs = hs + c09.histories_simulated(c, 5, 300)
     else:
-        hs = hs + c09.histories_exhaustive(c, 3) + c09.histories_simulated(c, 8, 3000)
+        hs = hs + c09.histories_simulated(c, 4, 6000) + c09.histories_simulated(c, 8, 3000)
     scen = []
     for i, h in enumerate(hs):
         ops = []
